@@ -45,7 +45,6 @@ package irinterp
 // append/copy copy the elements.
 
 import (
-	"fmt"
 	"go/types"
 	"math"
 	"unicode/utf8"
@@ -406,5 +405,3 @@ func (it *mapIter) next() tuple {
 
 func (it *mapIter) String() string    { return "<map iterator>" }
 func (it *stringIter) String() string { return "<string iterator>" }
-
-var _ = fmt.Sprint
